@@ -61,7 +61,7 @@ class Env:
             self.g = self.it.method(g0, "downsample")
             if [int(x) for x in self.it.method(self.g, "size")] != list(size) or \
                     all(to_rat(x).equals(to_rat(y)) for x, y in zip(self.g.attrs["_size"].flat(), size)):
-                raise AnalysisError("fractional-size scenario: downsample() of odd sizes no longer keeps a non-integral internal size")
+                raise InterpError("AssertionError", "downsample() of an odd-sized grid does not keep its non-integral internal size n - 1/2 (halving and doubling would not round-trip)")
         else:
             self.g = self.it.new(self.Grid, size=size_arg, spacing=STensor.from_flat(self.s, [D]),
                                  center=STensor.from_flat(self.c, [D]), direction=self.R, align_corners=ac)
